@@ -110,6 +110,15 @@ void pdgstrf_StackFree()
 #endif
 } 
 
+#ifdef SLU_MT_VERIF
+/* verification hook: the fields of the two-ended user stack (size, used, top1, top2, address of the array), read only */
+void pdgstrf_verif_stack(long long v[5])
+{
+    v[0] = stack.size; v[1] = stack.used; v[2] = stack.top1; v[3] = stack.top2;
+    v[4] = (long long) stack.array;
+}
+#endif
+
 void *duser_malloc(int_t bytes, int_t which_end)
 {
     void *buf;
